@@ -744,7 +744,8 @@ def obs_diff(a, b):
 def panic_key(o):
     err = o.get("stderr", "")
     m = re.search(r"^(?:panic|fatal error): (.*)$", err, re.M)
-    msg = re.sub(r"\d+", "N", m.group(1))[:70] if m else "unknown"
+    # values quoted in the message (`c`, ``d``, "zz", 21) are not part of the class of the failure
+    msg = re.sub(r"\d+", "N", re.sub(r"`+[^`]*`+|\"[^\"]*\"", "V", m.group(1)))[:70] if m else "unknown"
     msg = re.sub(r"0x[0-9a-f]+", "ADDR", msg)
     msg = re.sub(r"[^A-Za-z\[\]]+", "-", msg).strip("-")
     return "%s@%s" % (msg, first_frame(err))
